@@ -159,11 +159,26 @@ func C09(r *vf.Run) {
 		prevVer   map[int]int
 		scratch   *snes.Header
 		fixSum    int
+		second    bool // the larger images carry a second, well-formed header at $FFB0
 	}
 	newBufs := func(g *vf.Rng) *bufs {
-		b := &bufs{map[int][]byte{}, map[int][]byte{}, map[int]*snes.ROM{}, map[int]int{}, new(snes.Header), 0}
+		b := &bufs{map[int][]byte{}, map[int][]byte{}, map[int]*snes.ROM{}, map[int]int{}, new(snes.Header), 0, false}
 		for _, n := range sizes {
 			b.orig[n] = g.Bytes(n)
+			if n >= 0x10000 && g.Intn(3) != 0 {
+				// the rest of the image is not noise either: a real HiROM dump carries a well-formed header
+				// at file offset $FFB0 (title, map mode, sizes, complementary checksum pair, vectors)
+				h := b.orig[n][0xFFB0:0x10000]
+				copy(h[0x10:], []byte("SECOND HEADER IN BODY"))
+				h[0x25] = []byte{0x21, 0x31, 0x25, 0x35}[g.Intn(4)]
+				h[0x26], h[0x27], h[0x28], h[0x29], h[0x2A], h[0x2B] = 0x02, byte(8+g.Intn(5)), byte(g.Intn(8)), 0x01, 0x33, 0
+				sum := g.U16() | 1
+				h[0x2E], h[0x2F], h[0x2C], h[0x2D] = byte(sum), byte(sum>>8), byte(^sum), byte(^sum>>8)
+				for i := 0x30; i < 0x50; i += 2 {
+					h[i], h[i+1] = byte(g.Intn(256)), byte(0x80+g.Intn(0x80)) // vectors into the ROM half
+				}
+				b.second = true
+			}
 			b.img[n] = append([]byte(nil), b.orig[n]...)
 		}
 		return b
@@ -275,6 +290,9 @@ func C09(r *vf.Run) {
 		}
 		r.Eval(1)
 		r.Cell(fmt.Sprintf("%s%s:v%d:size%x", tag, sfx, ver, size))
+		if bf.second && size >= 0x10000 {
+			r.Cell("image-with-second-header-at-ffb0")
+		}
 	}
 
 	if r.Phase("random-headers") {
